@@ -910,6 +910,8 @@ class AWSBatchExecutor(Executor):
         self.interval = config.getfloat("job_monitor_interval", fallback=5.0)
 
         self._thread: Optional[threading.Thread] = None
+        # Guards the decision of whether a monitor thread is watching for new jobs.
+        self._lock = threading.RLock()
         self.arrayer = JobArrayer(
             self._submit_jobs,
             self._on_error,
@@ -989,20 +991,22 @@ class AWSBatchExecutor(Executor):
         """
         Start monitoring thread.
         """
-        if not self.is_running:
-            self._aws_user = aws_utils.get_aws_user()
+        with self._lock:
+            if not self.is_running:
+                self._aws_user = aws_utils.get_aws_user()
 
-            self.is_running = True
-            self._thread = threading.Thread(target=self._monitor, daemon=False)
-            self._thread.start()
+                self.is_running = True
+                self._thread = threading.Thread(target=self._monitor, daemon=False)
+                self._thread.start()
 
     def stop(self) -> None:
         """
         Stop Executor and monitoring thread.
         """
-        self._docker_executor.stop()
-        self.arrayer.stop()
-        self.is_running = False
+        with self._lock:
+            self._docker_executor.stop()
+            self.arrayer.stop()
+            self.is_running = False
 
         # Stop monitor thread.
         if (
@@ -1042,39 +1046,52 @@ class AWSBatchExecutor(Executor):
         chunk_size = 100
         pending_truncate = 10
 
-        try:
-            while self.is_running and (self.pending_batch_jobs or self.arrayer.num_pending):
-                if self._scheduler.logger.level >= logging.DEBUG:
-                    self.log(
-                        f"Preparing {self.arrayer.num_pending} job(s) for Job Arrays.",
-                        level=logging.DEBUG,
+        while True:
+            failed = False
+            try:
+                while self.is_running and (self.pending_batch_jobs or self.arrayer.num_pending):
+                    if self._scheduler.logger.level >= logging.DEBUG:
+                        self.log(
+                            f"Preparing {self.arrayer.num_pending} job(s) for Job Arrays.",
+                            level=logging.DEBUG,
+                        )
+                        self.log(
+                            f"Waiting on {len(self.pending_batch_jobs)} Batch job(s): "
+                            + " ".join(sorted(self.pending_batch_jobs.keys())),
+                            level=logging.DEBUG,
+                        )
+                    # Copy pending_batch_jobs.keys() since it can change due to new submissions.
+                    jobs = iter_batch_job_status(
+                        list(self.pending_batch_jobs.keys()),
+                        pending_truncate=pending_truncate,
+                        aws_region=self.aws_region,
                     )
-                    self.log(
-                        f"Waiting on {len(self.pending_batch_jobs)} Batch job(s): "
-                        + " ".join(sorted(self.pending_batch_jobs.keys())),
-                        level=logging.DEBUG,
-                    )
-                # Copy pending_batch_jobs.keys() since it can change due to new submissions.
-                jobs = iter_batch_job_status(
-                    list(self.pending_batch_jobs.keys()),
-                    pending_truncate=pending_truncate,
-                    aws_region=self.aws_region,
-                )
-                for i, job in enumerate(jobs):
-                    self._process_job_status(job)
-                    if i % chunk_size == 0:
-                        # Sleep after every chunk to avoid excessive API calls.
-                        time.sleep(self.interval)
-                time.sleep(self.interval)
+                    for i, job in enumerate(jobs):
+                        self._process_job_status(job)
+                        if i % chunk_size == 0:
+                            # Sleep after every chunk to avoid excessive API calls.
+                            time.sleep(self.interval)
+                    time.sleep(self.interval)
 
-        except Exception as error:
-            # Since we run this is method at the top-level of a thread, we
-            # need to catch all exceptions so we can properly report them to
-            # the scheduler.
-            self._scheduler.reject_job(None, error)
+            except Exception as error:
+                # Since we run this is method at the top-level of a thread, we
+                # need to catch all exceptions so we can properly report them to
+                # the scheduler.
+                failed = True
+                self._scheduler.reject_job(None, error)
 
-        self.log("Shutting down executor...", level=logging.DEBUG)
-        self.stop()
+            self.log("Shutting down executor...", level=logging.DEBUG)
+            with self._lock:
+                # A job submitted since the loop above found nothing left to monitor did not
+                # start a new monitor thread, because is_running was still set. Keep
+                # monitoring for it instead of exiting.
+                idle = self.is_running and not failed
+                self.stop()
+                if idle and (self.pending_batch_jobs or self.arrayer.num_pending):
+                    self.is_running = True
+                    self.arrayer.start()
+                    continue
+            break
 
     def _can_override_failed(self, job: Mapping[str, Any]) -> tuple[bool, str]:
         """
